@@ -37,7 +37,8 @@ import (
 // of every database are dumped: S:<n>=<k>:<v>,...;<n>=...
 //
 // Before every flush the same dump is taken (without the flush-ID key): Q:<n>=...;...
-// Observation:  LOG <log tokens> ; V <verdict per prefix 0..L> ; S <snapshot per flush> ; Q <pre-flush dump per flush> ; R<0|1>
+// For every prefix Initialize is also run with an EXPECTED flush ID (the mark of flush k mod (#flushes+1), or 00eeee): X section.
+// Observation:  LOG <log tokens> ; V <verdict per prefix 0..L> ; S <snapshot per flush> ; Q <pre-flush dump per flush> ; X <verdict with expected ID per prefix> ; R<0|1>
 // (R1: the live databases at the end equal the replay of the whole log.)
 
 type c25World struct {
@@ -184,14 +185,14 @@ func c25Apply(w *c25World, t string) {
 	}
 }
 
-func c25Recover(mode string, w *c25World, fk []byte) string {
+func c25Recover(mode string, w *c25World, fk []byte, expected []byte) string {
 	var id []byte
 	var err error
 	names := w.Names()
 	if mode == "pool" {
-		id, err = flushable.NewSyncedPool(w, fk).Initialize(names, nil)
+		id, err = flushable.NewSyncedPool(w, fk).Initialize(names, expected)
 	} else {
-		id, err = flaggedproducer.Wrap(w, fk).Initialize(names, nil)
+		id, err = flaggedproducer.Wrap(w, fk).Initialize(names, expected)
 	}
 	if err != nil {
 		m := err.Error()
@@ -322,6 +323,13 @@ func c25Run(in []string) []string {
 			durable = append(durable, t)
 		}
 	}
+	var flushIDs [][]byte
+	for _, o := range ops {
+		if len(o) == 2 && o[0] == "F" {
+			flushIDs = append(flushIDs, vu.UnHex(o[1]))
+		}
+	}
+	var xverd []string
 	obs := []string{"LOG"}
 	obs = append(obs, w.log...)
 	obs = append(obs, ";", "V")
@@ -331,8 +339,16 @@ func c25Run(in []string) []string {
 		for _, t := range durable[:k] {
 			c25Apply(cw, t)
 		}
-		v := c25Recover(mode, cw, fk)
+		v := c25Recover(mode, cw, fk, nil)
 		obs = append(obs, v)
+		// the same with an expected flush ID: the mark of flush (k mod (#flushes+1)), or a bogus one
+		exp := []byte{0x00, 0xee, 0xee}
+		if j := k % (len(flushIDs) + 1); j < len(flushIDs) {
+			exp = append([]byte{0x00}, flushIDs[j]...)
+		}
+		xv := c25Recover(mode, cw, fk, exp)
+		xverd = append(xverd, xv)
+		vu.Stat("expected_verdict_" + xv[:1])
 		if v[0] == 'E' {
 			vu.Stat("verdict_" + v)
 		} else {
@@ -357,6 +373,8 @@ func c25Run(in []string) []string {
 			obs = append(obs, snaps...)
 			obs = append(obs, ";", "Q")
 			obs = append(obs, pres...)
+			obs = append(obs, ";", "X")
+			obs = append(obs, xverd...)
 			obs = append(obs, ";", "R"+vu.B(same))
 		}
 	}
